@@ -11,6 +11,7 @@ from ..mc import Raw
 from ..keyuniverse import build, small
 
 K1 = 'set-of-hash-randomised-elements-in-captured-argument'
+K2 = 'set-with-colliding-element-hashes-in-captured-argument'
 
 
 def _speckey(k):
@@ -38,7 +39,7 @@ def run(rep, tier, seed):
     if tier == 'quick':   # a seeded subset of the universe keeps the quick tier around a minute
         import random as _r
         rnd = _r.Random(seed)
-        must = ['set_ss_st', 'set_ss_st_uni', 'set_ints', 'long_str', 'long_str2', 'long_list', 'deep_dict', 'deep_obj', 'deep_obj_other', 'i1', 'true', 'f1', 'list_i1', 'tuple_i1', 'plain_a1',
+        must = ['set_i1_i9', 'set_ss_st', 'set_ss_st_uni', 'set_ints', 'long_str', 'long_str2', 'long_list', 'deep_dict', 'deep_obj', 'deep_obj_other', 'i1', 'true', 'f1', 'list_i1', 'tuple_i1', 'plain_a1',
                                                                    'other_a1', 'dict_a1', 'dict_dict', 'list_dict2']
         rest = [t for t in toks if t not in must]
         rnd.shuffle(rest)
@@ -59,6 +60,7 @@ def run(rep, tier, seed):
     fn_of = ['%s/%s|' % (st['call']['capture'], 'static' if st['call']['static'] else 'instance') for st in states]
     spec = [fn_of[i] + _speckey(st['key']) for i, st in enumerate(states)]
     sens = [bool(captured_tokens(st['key']) & set(t for t in toks if u[t]['hash_sensitive'])) for st in states]
+    ins = [bool(captured_tokens(st['key']) & set(t for t in toks if u[t]['insertion_sensitive'])) for st in states]
     from ..keyproc import compute_keys
     runs = {'this-process': [fn_of[i] + k for i, k in enumerate(compute_keys(calls, level))]}
     tmp = tempfile.mkdtemp(prefix='pbverif-c06-')
@@ -90,6 +92,7 @@ def run(rep, tier, seed):
     rep.sample({'call': calls[0], 'SpecKey': spec[0], 'real_key': runs['this-process'][0]})
     rep.sample({'call': calls[n // 2], 'SpecKey': spec[n // 2], 'real_key': runs['this-process'][n // 2]})
     k1_hits = 0
+    k2_hits = 0
     # (1) inside every process: same SpecKey <=> same real key
     for pname, keys in runs.items():
         by_spec = {}
@@ -106,6 +109,12 @@ def run(rep, tier, seed):
                 idx = [i for i in range(n) if spec[i] == sk]
                 if all(sens[i] for i in idx):
                     k1_hits += 1
+                    continue
+                if all(sens[i] or ins[i] for i in idx):
+                    k2_hits += 1
+                    rep.violation({'summary': '[%s] equal sets built in a different order inside a captured argument got %d '
+                                              'different keys: %s -> %s' % (pname, len(ks), sk, sorted(ks)[:2]),
+                                   'signature': K2}, replay={'kind': 'samekey', 'spec': sk})
                     continue
                 rep.violation({'summary': '[%s] structurally equal captured arguments got %d different keys: %s -> %s'
                                           % (pname, len(ks), sk, sorted(ks)[:2]), 'signature': None},
@@ -130,6 +139,8 @@ def run(rep, tier, seed):
     rep.extra['calls'] = n
     rep.extra['hash_sensitive_calls'] = sum(sens)
     rep.extra['known_finding_hits'] = k1_hits
+    rep.extra['insertion_sensitive_calls'] = sum(ins)
+    rep.extra['known_finding_K2_hits'] = k2_hits
 
 
 def replay(rep, body):
